@@ -1,5 +1,7 @@
 import AFProofs.Lemmas.Combined
 import AFProofs.Lemmas.CombinedCount
+import AFProofs.Lemmas.CombinedOps
+import AFModel.Generated.C15
 
 /-!
 # C15 — summed analyses: likelihood is the sum, parameters shared or freed as declared
@@ -32,6 +34,82 @@ theorem builtin_sum_keeps_order {α : Type} (a : α) (rest : List α) :
   unfold flatten sumExpr
   rw [build_sumExpr a rest (.leaf a)]
   cases rest <;> simp [build, Built.toList]
+
+/-! ## operand structure: the order of `combined.analyses` exactly, `with_free_parameters` anywhere -/
+
+/-- For ANY bracketing the analyses held are the analyses as written once every `a + (…)` (a single
+analysis added to a sum on its right, which `Analysis.__add__` hands to the right operand) is read
+as `(…) + a`; the rewritten expression has no such shape left. -/
+theorem analyses_order_any_bracketing {α : Type} (e : Expr α) :
+    flatten e = (normalize e).leaves ∧ inOrder (normalize e) = true := by
+  refine ⟨?_, normalize_inOrder e⟩
+  rw [← flatten_of_inOrder (normalize e) (normalize_inOrder e)]
+  simp [flatten, build_normalize]
+
+/-- In particular the analyses are held in the written order whenever no single analysis is the
+left operand of a sum (every left-nested chain, `sum([...])`, `(a + b) + (c + d)`, …) … -/
+theorem analyses_in_written_order {α : Type} (e : Expr α) (h : inOrder e = true) :
+    flatten e = e.leaves :=
+  flatten_of_inOrder e h
+
+/-- … and, for pairwise different analyses, ONLY then. -/
+theorem analyses_in_written_order_iff {α : Type} (e : Expr α) (hn : e.leaves.Nodup) :
+    flatten e = e.leaves ↔ inOrder e = true :=
+  ⟨inOrder_of_flatten e hn, flatten_of_inOrder e⟩
+
+/-- **Free parameters declared anywhere survive** (repaired `+`,
+fixes/C15-free-parameters-survive-add.patch): for every expression over `+` and
+`with_free_parameters` (applied to sums) evaluation never raises, the analyses held are those of the
+expression without the declarations, and the free parameters are exactly the declarations in
+force (those not replaced by a later `with_free_parameters`), left to right. -/
+theorem free_parameters_survive_any_position {α φ : Type} (cfg : OpsCfg)
+    (hc : cfg.freeSurvivesAdd = true) (expand : List φ → List Nat) (e : FExpr α φ)
+    (hw : e.wellFormed = true) :
+    ∃ x, buildF cfg expand e = .ok x ∧ x.b.toList = flatten e.erase ∧
+      x.free = declaredFree expand e := by
+  obtain ⟨x, hx, hb, hf⟩ := buildF_spec cfg hc expand e hw
+  exact ⟨x, hx, by simp [hb, flatten], hf⟩
+
+/-- A declaration anywhere makes the whole sum a free-parameter analysis whose fitted model is, place
+by place, one copy of the model per analysis held (in order) with every declared parameter renamed
+to that analysis' own copy. -/
+theorem free_anywhere_fitted_model {α φ V : Type} (cfg : OpsCfg) (hc : cfg.freeSurvivesAdd = true)
+    (expand : List φ → List Nat) (e : FExpr α φ) (hw : e.wellFormed = true) (hl : e.live ≠ []) :
+    ∃ x, buildF cfg expand e = .ok x ∧ x.free = some ((e.live.map expand).flatten) ∧
+      ∀ (t : Node V) (as : List (Analysis V)) (ind : Bool) (base : Nat),
+        walk (fittedModel t as (modeOf ind x.free.isSome) (x.free.getD []) base) =
+          ((List.range as.length).map (fun k =>
+            (walk t).map (fun y =>
+              (toString k :: y.1, freeRename ((e.live.map expand).flatten) base k y.2)))).flatten := by
+  obtain ⟨x, hx, _, hf⟩ := buildF_spec cfg hc expand e hw
+  have hf2 : x.free = some ((e.live.map expand).flatten) := by
+    rw [hf, declaredFree]
+    cases hlive : e.live with
+    | nil => exact absurd hlive hl
+    | cons a b => simp
+  refine ⟨x, hx, hf2, fun t as ind base => ?_⟩
+  simp only [hf2, Option.isSome_some, modeOf, ite_true, fittedModel, Option.getD_some]
+  exact walk_freeModel t _ base as.length
+
+/-- **Refuted for the pinned commit** (`type(self)(*self.analyses, other)` without the keyword
+`free_parameters`): `(a0 + a1).with_free_parameters(p) + a2` and `a2 + (a0 + a1).with_free_parameters(p)`
+raise `TypeError` … -/
+theorem free_operand_raises_when_flag_off :
+    (buildF { freeSurvivesAdd := false } id
+      (.add (.free [7] (.add (.leaf 0) (.leaf 1))) (.leaf 2) : FExpr Nat Nat)).toOption.isNone = true ∧
+    (buildF { freeSurvivesAdd := false } id
+      (.add (.leaf 2) (.free [7] (.add (.leaf 0) (.leaf 1))) : FExpr Nat Nat)).toOption.isNone = true := by
+  decide
+
+/-- … and `(a2 + a3) + (a0 + a1).with_free_parameters(p)` is built as a plain sum: the declared
+free parameter is lost. -/
+theorem free_parameters_lost_when_flag_off :
+    ((buildF { freeSurvivesAdd := false } id
+      (.add (.add (.leaf 2) (.leaf 3)) (.free [7] (.add (.leaf 0) (.leaf 1))) : FExpr Nat Nat)).toOption.map
+        (fun x => (x.b.toList, x.free))) = some ([2, 3, 0, 1], none) ∧
+    declaredFree id
+      (.add (.add (.leaf 2) (.leaf 3)) (.free [7] (.add (.leaf 0) (.leaf 1))) : FExpr Nat Nat) = some [7] := by
+  decide
 
 /-! ## the serial likelihood is the sum -/
 
@@ -231,10 +309,57 @@ theorem pool_folders_refuted_when_flag_off :
     serialFolders 4 = [0, 1, 2, 3] := by
   decide
 
+/-! ## hooks forwarded to the analyses held (table regenerated from the source on every run) -/
+
+/-- A hook forwarded to every analysis reaches the k-th analysis held in its k-th call, with the
+k-th child folder (`analyses/analysis_k`) when child paths are made, and with the k-th item of the
+zipped argument (`save_results`: the k-th child result) - for every number of analyses. -/
+theorem hook_reaches_child_k (cp pooled z : Bool) (n m k : Nat) (hk : k < n) (hm : z = true → k < m) :
+    (hookCalls (.eachChild cp pooled z) n m)[k]? =
+      some { child := k, folder := if cp then some k else none, arg := if z then some k else none } := by
+  have hlen : k < (if z then min n m else n) := by
+    cases z with
+    | false => simpa using hk
+    | true => exact Nat.lt_min.mpr ⟨hk, hm rfl⟩
+  simp [hookCalls, hlen]
+
+/-- … exactly once each when the zipped argument has one item per analysis (or there is none). -/
+theorem hook_calls_count (cp pooled z : Bool) (n m : Nat) (hm : z = true → n ≤ m) :
+    (hookCalls (.eachChild cp pooled z) n m).length = n := by
+  cases z with
+  | false => simp [hookCalls]
+  | true => simp [hookCalls, Nat.min_eq_left (hm rfl)]
+
+/-- **Over the table read off the source**: every output hook of `Analysis` / `Visualizer` (takes
+`paths`, is not a once-for-all `*_combined` variant, is not a `should_*` question) is forwarded by
+`CombinedAnalysis` to every analysis it holds; every once-for-all variant goes to the first
+analysis; no override is of a shape the translator does not know, except `log_likelihood_function`
+(the sum, modelled by `serial` / `evaluate`). A hook added to `Analysis` and not forwarded makes
+this theorem fail. -/
+theorem every_output_hook_reaches_every_analysis :
+    (∀ h ∈ Generated.hooks, h.isOutput = true → h.route.reachesAll = true) ∧
+    (∀ h ∈ Generated.hooks, h.takesPaths = true → h.shared = true → h.route = .firstChild) ∧
+    (∀ h ∈ Generated.hooks, h.route = .other → h.name = "log_likelihood_function") := by
+  decide
+
 /-! ## non-vacuity: concrete inputs meeting the hypotheses -/
 
 -- a bracketing that reorders
 example : flatten (.add (.leaf 0) (.add (.leaf 1) (.leaf 2)) : Expr Nat) = [1, 2, 0] := by decide
+-- operand structure: a bracketing that keeps the written order, one that does not, and its normal form
+example : inOrder (.add (.add (.leaf 0) (.leaf 1)) (.add (.leaf 2) (.leaf 3)) : Expr Nat) = true := by decide
+example : inOrder (.add (.leaf 0) (.add (.leaf 1) (.leaf 2)) : Expr Nat) = false ∧
+    (normalize (.add (.leaf 0) (.add (.leaf 1) (.leaf 2)) : Expr Nat)).leaves = [1, 2, 0] := by decide
+-- free parameters declared on both operands of a sum, one of them replaced before
+example : ((buildF {} id (.add (.free [7] (.add (.leaf 0) (.leaf 1)))
+      (.add (.leaf 2) (.free [9, 8] (.free [5] (.add (.leaf 3) (.leaf 4))))) : FExpr Nat Nat)).toOption.map
+        (fun x => (x.b.toList, x.free))) = some ([0, 1, 3, 4, 2], some [7, 9, 8]) := by decide
+example : (FExpr.add (.free [7] (.add (.leaf 0) (.leaf 1))) (.leaf 2) : FExpr Nat Nat).wellFormed = true ∧
+    (FExpr.add (.free [7] (.add (.leaf 0) (.leaf 1))) (.leaf 2) : FExpr Nat Nat).live ≠ [] := by decide
+-- hooks: `save_results` on three analyses with three child results; the table has output hooks
+example : hookCalls (.eachChild true false true) 3 3 =
+    [⟨0, some 0, some 0⟩, ⟨1, some 1, some 1⟩, ⟨2, some 2, some 2⟩] := by decide
+example : (Generated.hooks.filter (·.isOutput)).length ≥ 8 := by decide
 -- five analyses on four cores: slices of two, the last process idle
 example : partition 4 [0, 1, 2, 3, 4] = [[0, 1], [2, 3], [4], []] := by decide
 -- the repaired pool on the refutation's history, under a schedule that interleaves
